@@ -445,6 +445,18 @@ def predict_post(eng, cfg, out, info):
             return to_int(r[0][pos]), to_int(r[1][pos])
         return to_int(r[pos]), None
 
+    if prop == "C03":
+        # state-injected supervised forest: returned label is the label of an exhaustive minimiser
+        T = out["T"]
+        cost = [to_real(c) for c in st["cost"]]
+        for bi, b in enumerate(batches):
+            for pos, q in enumerate(b):
+                lab, _ = label_of(bi, pos)
+                d = [to_real(T[t][n + q]) for t in range(n)]
+                val = [zmax(cost[t], d[t]) for t in range(n)]
+                alts = [z3.And([val[t] <= val[s] for s in range(n) if s != t] + [lab == plab[t]]) for t in range(n)]
+                eng.check("prediction-is-an-exhaustive-minimiser[b%d,p%d]" % (bi, pos), z3.Or(alts), info)
+        return
     if prop == "C14":
         clus = [to_int(x) for x in st["clus"]]
         for bi, b in enumerate(batches):
